@@ -22,6 +22,7 @@ EXPECT = {
  "hand_emitcond_patch_swapped": ["C11"], "hand_newlist_size_u8": ["C11", "C03"], "hand_thunk_own_pool": ["C11"],
  "hand_callbyvalue_args_not_reversed": ["C03", "C06"], "hand_sub_operands_swapped": ["C03", "C04"], "hand_callthread_only_edit": ["C03"],
  "hand_reset_drops_stack": ["C03", "C06"], "hand_interp_missing_case": ["C03", "C02"], "hand_isset_returns_num": ["C01", "C02"],
+ "hand_interp_member_obj_twice": ["C06", "C12"], "hand_check_member_obj_twice": ["C12", "C06"],
  "hand_listget_returns_index": ["C01", "C16"], "hand_maxlist_no_empty_test": ["C02"], "hand_lenlist_wrong_accessor": ["C02", "C01"],
 }
 
